@@ -130,3 +130,11 @@ Theorem C15_code_trun_tie : forall fuel evs,
 Proof. exact EquivTls.trun_tie. Qed.
 Print Assumptions C15_code_trun_tie.
 
+(* the request timer is armed when the connection is made, with the delay of the source's REQUEST_TIMEOUT *)
+From NV Require Equiv.EquivServer.
+Theorem C15_code_connection_made_tie : ltac:(let t := type of @EquivServer.connection_made_tie in exact t).
+Proof. exact (@EquivServer.connection_made_tie). Qed.
+Print Assumptions C15_code_connection_made_tie.
+Theorem C15_code_request_timeout_value : ltac:(let t := type of @EquivServer.request_timeout_value in exact t).
+Proof. exact (@EquivServer.request_timeout_value). Qed.
+Print Assumptions C15_code_request_timeout_value.
